@@ -666,7 +666,13 @@ func (db *DB) rollbackJournal(ctx context.Context) error {
 	defer func() { _ = journalFile.Close() }()
 
 	dbFile, err := db.os.OpenFile("ROLLBACKJOURNALDB", db.DatabasePath(), os.O_RDWR, 0o666)
-	if err != nil {
+	if os.IsNotExist(err) {
+		// The database was dropped: there is nothing to roll back into.
+		if err := journalFile.Close(); err != nil {
+			return err
+		}
+		return db.os.Remove("ROLLBACKJOURNAL", db.JournalPath())
+	} else if err != nil {
 		return err
 	}
 	defer func() { _ = dbFile.Close() }()
